@@ -7,7 +7,7 @@ import vlib
 from vlib import vbytes, vlist, vopt, parse_val
 
 NEED_RG = False
-LEVEL = "proof+partial"
+LEVEL = "proof"
 MANIFEST = dict(
     text="Coq theorems over a nondeterministic transition system mirroring get_work/run/Stack (any number of "
          "workers, any forest, any visitor, any schedule = any list of step choices, steals nondeterministic within "
